@@ -21,6 +21,11 @@ type simHooks struct {
 	onGo          func(name string)
 	onDone        func(owner any, name string)
 	sched         *Sched
+	// sequential profiles: modelled locks, so that a hub goroutine (lease timer, job run) that meets a lock the
+	// scenario's goroutine holds waits on a condition variable, which the bubble counts as durably blocked; a
+	// goroutine blocked on the real mutex would stop the fake clock for good
+	held map[any]uint64
+	cond *sync.Cond
 }
 
 var hooks = &simHooks{knobs: map[string]int64{}, hits: map[string]int64{}}
@@ -53,6 +58,8 @@ func ResetHooks(sc *Scenario) {
 	hooks.onGo = nil
 	hooks.onDone = nil
 	hooks.sched = nil
+	hooks.held = map[any]uint64{}
+	hooks.cond = sync.NewCond(&hooks.mu)
 }
 
 func (h *simHooks) count(name string) int64 {
@@ -77,13 +84,41 @@ func PointHits() map[string]int64 {
 func (h *simHooks) Acquire(owner any, kind string, obj any) {
 	if s := h.sched; s != nil {
 		s.acquire(owner, kind, obj)
+		return
 	}
+	if kind != "dataset.write" || h.cond == nil {
+		return
+	}
+	me := curGid()
+	h.mu.Lock()
+	for {
+		g, busy := h.held[obj]
+		if !busy || g == me {
+			break
+		}
+		h.cond.Wait()
+	}
+	h.held[obj] = me
+	h.mu.Unlock()
 }
 
 func (h *simHooks) Release(owner any, kind string, obj any) {
 	if s := h.sched; s != nil {
 		s.release(owner, kind, obj)
+		if kind == "dataset.write" && h.cond != nil {
+			h.mu.Lock()
+			delete(h.held, obj)
+			h.mu.Unlock()
+		}
+		return
 	}
+	if kind != "dataset.write" || h.cond == nil {
+		return
+	}
+	h.mu.Lock()
+	delete(h.held, obj)
+	h.cond.Broadcast()
+	h.mu.Unlock()
 }
 
 func (h *simHooks) Point(owner any, name string) {
